@@ -127,6 +127,31 @@ func errClass(err error) string {
 
 // innerErrClass is the innermost message of a wrapped decode error ("decode
 // moof pos 24: decode traf pos 48: <inner>") with every number replaced by #.
+// longRunKinds classifies the truns of more than 1024 samples of a file (reference expansion).
+func longRunKinds(rf *reffrag.File) string {
+	bare, withFields := false, false
+	for _, m := range rf.Moofs {
+		for _, t := range m.Trafs {
+			for _, tr := range t.Truns {
+				if tr.SampleCount > 1024 {
+					if tr.Flags&0xf00 == 0 {
+						bare = true
+					} else {
+						withFields = true
+					}
+				}
+			}
+		}
+	}
+	switch {
+	case bare:
+		return "a-run-over-1024-has-no-per-sample-field"
+	case withFields:
+		return "every-run-over-1024-has-per-sample-fields"
+	}
+	return "no-run-over-1024"
+}
+
 func innerErrClass(err error) string {
 	s := err.Error()
 	for {
@@ -352,7 +377,14 @@ func check(c *runner.Ctx, h *genfrag.History) {
 			continue
 		}
 		if derr != nil {
-			viol(reader, "decode-error/"+innerErrClass(derr), -1, nil, 0, "decoding the encoded file fails: "+derr.Error())
+			cls := innerErrClass(derr)
+			if strings.Contains(cls, "is big but no sample data present") && err == nil {
+				// the decoder's guard against a short box claiming a huge count: say which kind of long
+				// run the file holds, so that a refusal of runs that DO carry per-sample fields is
+				// a different finding from the refusal of runs without any
+				cls += "/" + longRunKinds(rf)
+			}
+			viol(reader, "decode-error/"+cls, -1, nil, 0, "decoding the encoded file fails: "+derr.Error())
 			continue
 		}
 		if file.Init == nil || file.Init.Moov == nil || file.Init.Moov.Mvex == nil {
